@@ -8,7 +8,7 @@ from beanquery.parser import ast
 from .. import refsem, sym
 from ..h import cond, assume, cover, pick, enum_int, native
 from ..printer import sel, col, const, target, func, select as print_select
-from ..tables import HTable, connect, parse
+from ..tables import HTable, connect, parse, execute
 from .c01 import same, same_rows
 from .c03 import KEYDOM
 
@@ -16,16 +16,20 @@ COLUMNS = [('a', int), ('b', int), ('k', int)]
 
 
 def _rows(nrows, kw):
-    return [(kw[f'a{i}'], kw[f'b{i}'], KEYDOM.build(f'k{i}', kw)) for i in range(nrows)]
+    return [(kw[f'a{i}'], kw[f'b{i}'], KEYDOM.build(f'k{i}', kw) if f'k{i}' in kw else i % 2) for i in range(nrows)]
 
 
-def _params(nrows):
+def _params(nrows, with_k=True):
     p = {}
     for i in range(nrows):
         p[f'a{i}'] = Optional[int]
         p[f'b{i}'] = Optional[int]
-        p[f'k{i}'] = int
+        if with_k:
+            p[f'k{i}'] = int
     return p
+
+
+USES_K = ('aggregated', 'distinct')
 
 
 # inner queries over #t, each with output columns named x [, y]
@@ -78,8 +82,8 @@ def _outer(kind, source, ncols):
 
 def _exec(conn, stmt):
     text = native(print_select, stmt)
-    cur = conn.execute(parse(text))
-    return [(c.name, c.datatype) for c in cur.description], cur.fetchall()
+    description, rows = execute(conn, parse(text))
+    return [(c.name, c.datatype) for c in description], rows
 
 
 def _compose_check(conn, inner, outer_kind):
@@ -105,10 +109,10 @@ def make_from(kind, nrows, quick, thorough):
           bounds=f'base table of {nrows} rows (a, b symbolic ints or NULL; k in {{NULL,0,1}} enumerated); inner query '
                  f'"{kind}" (LIMIT n with n symbolic 0..3); outer query one of {OUTER}',
           symbolic='a, b cells, LIMIT n', enumerated='k cells, outer query shape (selector)',
-          params={**_params(nrows), 'outer': int, 'n': int}, group='C08.from',
+          params={**_params(nrows, kind in USES_K), 'outer': int, 'n': int}, group='C08.from',
           note='metamorphic: the oracle is the real code run on the materialised inner result')
     def from_cond(outer, n, **kw):
-        assume(0 <= n <= 3)
+        n = enum_int(n, 0, 3) if kind == 'limit' else 0
         rows = _rows(nrows, kw)
         conn = connect(t=HTable('t', COLUMNS, rows))
         label = _compose_check(conn, _inner(kind, n), pick(OUTER, outer))
@@ -117,13 +121,42 @@ def make_from(kind, nrows, quick, thorough):
 
 for _kind in INNER:
     make_from(_kind, 2, 180, 400)
-    make_from(_kind, 3, None, 1500)
+    make_from(_kind, 3, None if _kind in USES_K else 300, 1500)
+
+
+TYPED_INNERS = [
+    lambda: sel([target(col('a'), 'x'), target(col('b'), 'y')], 't'),                              # int, int
+    lambda: sel([target(ast.IsNull(col('a')), 'x'), target(col('b'), 'y')], 't'),                  # bool, int
+    lambda: sel([target(col('b'), 'y'), target(col('a'), 'x')], 't'),                              # order swapped
+    lambda: sel([target(ast.Div(col('k'), const(2)), 'x'), target(ast.IsNotNull(col('b')), 'y')], 't'),  # Decimal, bool
+    lambda: sel([target(col('a'), 'x')], 't'),                                                      # one column
+]
+
+
+@cond('C08.from.history', quick=180, thorough=600,
+      bounds='2 rows; two nested queries SELECT * FROM (inner_i), SELECT * FROM (inner_j) executed one after the other '
+             'in one process, inner queries with equally named outputs of different datatypes / order / count: '
+             'each nested result and description equals the inner query\'s own',
+      symbolic='a, b cells', enumerated='the two inner queries (selectors), k cells fixed',
+      params={**_params(2, False), 'i': int, 'j': int})
+def from_history(i, j, **kw):
+    rows = _rows(2, kw)
+    conn = connect(t=HTable('t', COLUMNS, rows))
+    for k in (i, j):
+        inner = pick(TYPED_INNERS, k)()
+        d0, r0 = _exec(conn, inner)
+        d1, r1 = _exec(conn, sel(ast.Asterisk(), from_clause=inner))
+        if d1 != d0:
+            return 'star-description-depends-on-history'
+        if not same_rows(r1, r0):
+            return 'star-rows-depend-on-history'
+    return 'ok'
 
 
 @cond('C08.from.names', quick=120,
       bounds='2 rows (a, b symbolic ints or NULL); SELECT * FROM (SELECT b, a FROM #t) and SELECT * FROM (SELECT a + 1 FROM #t): '
              'output names and datatypes of the inner query are the columns of the outer one',
-      symbolic='cells', enumerated='two inner forms', params={**_params(2), 'form': bool})
+      symbolic='cells', enumerated='two inner forms', params={**_params(2, False), 'form': bool})
 def from_names(form, **kw):
     rows = _rows(2, kw)
     conn = connect(t=HTable('t', COLUMNS, rows))
@@ -145,9 +178,9 @@ def from_names(form, **kw):
 @cond('C08.from.depth3', quick=180, thorough=600,
       bounds='2 rows; SELECT x FROM (SELECT * FROM (inner)) WHERE x IS NOT NULL for each inner query kind',
       symbolic='a, b cells', enumerated='k cells; inner kind (selector)',
-      params={**_params(2), 'kind': int, 'n': int})
+      params={**_params(2, False), 'kind': int, 'n': int})
 def from_depth3(kind, n, **kw):
-    assume(0 <= n <= 3)
+    n = enum_int(n, 0, 2)
     rows = _rows(2, kw)
     conn = connect(t=HTable('t', COLUMNS, rows))
     inner = _inner(pick(INNER, kind), n)
